@@ -75,12 +75,15 @@ def run():
     n = 1500 if ck.tier == 'quick' else 40000
     base = []
     seen = set()
-    for t in inputs.texts(ck.rng, n * 2, no_tabs=True):
+    from . import docgen
+    gen = docgen.texts(ck, 600 if ck.tier == 'quick' else 20000)
+    ck.extra['docgen_base_texts'] = len(gen)
+    for t in gen + inputs.texts(ck.rng, n * 2, no_tabs=True):
         if t in seen or len(t) > 500 or not in_domain(t):
             continue
         seen.add(t)
         base.append(t)
-        if len(base) >= n:
+        if len(base) >= n + len(gen):
             break
     recs, meta = [], []
     for t in base:
